@@ -180,7 +180,7 @@ MIX = LT.DEFAULT_MIX + ["SpaceChargeKick", "HorizontalCorrector", "VerticalCorre
 
 
 def gen_c08_lattice(rng):
-    recs = LT.gen_lattice(rng, 7, mix=MIX)
+    recs = LT.gen_lattice(rng, 7, mix=MIX, dup_names=0.12 if rng.random() < 0.5 else 0.0)
     # exercise inactive / zero-length configurations often
     for r in recs:
         u = rng.random()
